@@ -17,6 +17,7 @@ type histCase struct {
 	name   string
 	hist   History
 	obsA   []BlockObs
+	long   bool // long history: extra calls are placed one at a time only
 }
 
 // buildShard builds the histories i with i % n == shard on node A, serially.
@@ -117,6 +118,7 @@ func c09Shard(t Tier, shard, n int) (run *report.Run) {
 	dl := deadline(t, 100*time.Second, 20*time.Minute)
 	cases := buildShard(e, maxLen, shard, n)
 	cases = append(cases, upgradeCases(e, shard, n)...) // histories containing an in-process software upgrade
+	cases = append(cases, longCases(e, shard, n)...)
 	// every genesis: unusual but validation-passing genesis variants, each followed by one block of mixed traffic; they
 	// are compared several times (each execution samples Go's map iteration order anew)
 	gvNames := sortedKeys(genesisVariants)
@@ -211,7 +213,7 @@ func c09Shard(t Tier, shard, n int) (run *report.Run) {
 			}
 			for i, a := range slots {
 				cfgs = append(cfgs, cfg{fmt.Sprintf("1-extra:%s@%d", a.k, a.p), RunOpts{StopAt: -1, ExtraAt: map[int]string{a.p: a.k}}})
-				if extras >= 2 {
+				if extras >= 2 && !c.long {
 					for _, b := range slots[i+1:] {
 						if b.p == a.p {
 							continue
